@@ -583,6 +583,15 @@ func (w *mediaWorld) judge(rs *recvState, pr *presentation, after rtpconn.VerifL
 		}
 	}()
 
+	// the loss-based ceiling, read the way its users read it, at an
+	// arbitrary instant (here: whenever a packet has been presented)
+	if w.check["C04"] {
+		if r := rs.track.VerifLossCeilingNow(); r != ^uint64(0) && (r < 9600 || r > 1<<30) {
+			c.Violation("C04.loss-ceiling", "receiver %d: the loss-based ceiling reads %d, outside [9600, 2^30] and not 'no recent feedback' (server uptime %d s, receiver reports handled so far: %v)", rs.idx, r, w.p.UptimeS, rs.reported)
+			return
+		}
+	}
+
 	// ---------------- C04: layer state machine
 	if w.check["C04"] && !pr.overlap {
 		// The word's record of the highest layers only ever grows; if it is
